@@ -3,6 +3,19 @@
 /* loop contract of the per-kind walk in manage_srcs() (anchor M_VERIF_LOOP(mod_srcs)); the outer loop over the eight kinds is unwound */
 #define V_DROP (flag == RM && stop)
 #define V_OTHERS_DROP(k) ((k) < i ? g_sets[k].len == 0 : ((k) > i ? g_sets[k].len == g_L0[k] : 1))
+#define V_BEFORE_DROP(k) ((k) < i ? g_sets[k].len == 0 : g_sets[k].len == g_L0[k])
+/* outer loop over the eight kinds (anchor M_VERIF_LOOP(mod_kinds)): the kinds before i are done */
+#define M_VERIF_LOOPSPEC_mod_kinds \
+    __CPROVER_assigns(i, ret, g_bit->t, g_bit->idx, g_bit->removed, g.mit_freed, g_psrc->type, g_sets[0].len, g_sets[1].len, g_sets[2].len, g_sets[3].len, g_sets[4].len, g_sets[5].len, g_sets[6].len, g_sets[7].len, \
+                      g.itr_rm_calls, g.tick_poll_calls, g.tick_poll_flag, g_errno, g.starttask_calls, g.flush_calls) \
+    __CPROVER_loop_invariant(0 <= i && i <= M_SRC_TYPE_END) \
+    __CPROVER_loop_invariant(!V_DROP || (V_BEFORE_DROP(0) && V_BEFORE_DROP(1) && V_BEFORE_DROP(2) && V_BEFORE_DROP(3) && V_BEFORE_DROP(4) && V_BEFORE_DROP(5) && V_BEFORE_DROP(6) && V_BEFORE_DROP(7) \
+                                         && g.itr_rm_calls == g_r0 + g_PS[i] && g.tick_poll_calls == g_p0 && g.starttask_calls == g_t0 && g.flush_calls == g_f0 + (i > 0 ? g_L0[0] : 0))) \
+    __CPROVER_loop_invariant(V_DROP || (g_sets[0].len == g_L0[0] && g_sets[1].len == g_L0[1] && g_sets[2].len == g_L0[2] && g_sets[3].len == g_L0[3] && g_sets[4].len == g_L0[4] && g_sets[5].len == g_L0[5] \
+                                        && g_sets[6].len == g_L0[6] && g_sets[7].len == g_L0[7] && g.itr_rm_calls == g_r0 && g.flush_calls == g_f0 \
+                                        && g.tick_poll_calls == g_p0 + g_PS[i] && (g.tick_poll_calls == g_p0 || g.tick_poll_flag == flag) \
+                                        && g.starttask_calls == g_t0 + ((flag == ADD && g_pollinit_ret == 0 && i > M_SRC_TYPE_TASK) ? g_L0[M_SRC_TYPE_TASK] : 0))) \
+    __CPROVER_decreases(M_SRC_TYPE_END - i)
 #define M_VERIF_LOOPSPEC_mod_srcs \
     __CPROVER_assigns(m_itr, m_idx, ret, g_bit->idx, g_bit->removed, g.mit_freed, g_psrc->type, g_sets[0].len, g_sets[1].len, g_sets[2].len, g_sets[3].len, g_sets[4].len, g_sets[5].len, g_sets[6].len, g_sets[7].len, \
                       g.itr_rm_calls, g.tick_poll_calls, g.tick_poll_flag, g_errno, g.starttask_calls, g.flush_calls) \
